@@ -122,8 +122,9 @@ let run_group (mml : int) (g : grp) : string =
   List.iter (fun (p : rpart) -> Hashtbl.replace clen_of ("R" ^ p.unp_hex) (p.clen, p.cmarker)) g.rparts;
   List.iter (fun (p : rpart) -> Hashtbl.replace clen_of ("P" ^ p.unp_hex) (p.clen, p.cmarker)) g.pparts;
   let dummy kind (raw : n list) : n list * int =
-    let (clen, cm) = try Hashtbl.find clen_of (kind ^ hex_of_bytes raw)
-      with Not_found -> fail ("no real compressed size for a model " ^ kind ^ " part (the model wrote different bytes)") in
+    (* a part the real archive does not contain (the model wrote different bytes): treat it as incompressible,
+       the difference shows up in the printed line *)
+    let (clen, cm) = try Hashtbl.find clen_of (kind ^ hex_of_bytes raw) with Not_found -> (List.length raw + 1, 0) in
     incr serial;
     let n = max 0 (clen - 1) in
     let d = List.init n (fun i -> n_of_int (if i < 4 then (!serial lsr (8 * i)) land 255 else 0)) in
